@@ -393,6 +393,8 @@ var TravKeys = []string{"a", "b", "c", "x", "0", "1", "2", "01", "+1", "-1", "",
 var travStrs = []string{"", "a", "hello", "hello world", "é€x", "0123456789", "\xff\xfe", "/"}
 
 type TravGen struct {
+	Exp     map[string]int // link-expanded size of each stored block (bounds the length of a full walk)
+	cur     int            // link-expanded size of the value being generated
 	R       *Rng
 	Cids    []string // stored blocks
 	Missing []string // CIDs of blocks that were not stored
@@ -433,14 +435,20 @@ func (g *TravGen) link() *Val {
 		return g.scalar()
 	}
 	// favour recent blocks so that chains form, but repeat older ones too
+	c := g.Cids[g.R.Intn(len(g.Cids))]
 	if g.R.Chance(50) {
-		return Link(g.Cids[len(g.Cids)-1])
+		c = g.Cids[len(g.Cids)-1]
 	}
-	return Link(g.Cids[g.R.Intn(len(g.Cids))])
+	if g.cur+g.Exp[c] > 120 {
+		return g.scalar()
+	}
+	g.cur += g.Exp[c]
+	return Link(c)
 }
 
 // Value generates a block / root value: maps and lists with small key and index spaces, scalars, links.
 func (g *TravGen) Value(depth int, linkPct int) *Val {
+	g.cur++
 	if depth >= g.MaxDepth || (depth > 0 && g.R.Chance(30)) {
 		if g.R.Chance(linkPct) {
 			return g.link()
@@ -480,7 +488,7 @@ func (g *TravGen) Value(depth int, linkPct int) *Val {
 func GenTravGraph(r *Rng) *TravCase {
 	store := &memstore.Store{}
 	lsys := newLSys(store)
-	g := &TravGen{R: r, MaxDepth: 3}
+	g := &TravGen{R: r, MaxDepth: 3, Exp: map[string]int{}}
 	tc := &TravCase{}
 	// a block that is never stored: links to it fail to load
 	if r.Chance(15) {
@@ -496,6 +504,7 @@ func GenTravGraph(r *Rng) *TravCase {
 	}
 	for i := 0; i < nblocks; i++ {
 		var v *Val
+		g.cur = 0
 		switch {
 		case r.Chance(6):
 			v = g.scalar()
@@ -521,9 +530,11 @@ func GenTravGraph(r *Rng) *TravCase {
 			continue
 		}
 		g.Cids = append(g.Cids, c)
+		g.Exp[c] = g.cur + 1
 		tc.Blocks = append(tc.Blocks, TravBlock{c, lv})
 	}
 	g.MaxDepth = 4
+	g.cur = 0
 	if len(tc.Blocks) > 0 && r.Chance(20) {
 		tc.Root = tc.Blocks[len(tc.Blocks)-1].Val
 	} else {
@@ -799,4 +810,35 @@ func (s *TravStore) Put(v *Val) (string, *Val) {
 		panic(err)
 	}
 	return c, lv
+}
+
+// TravInteresting steers the generators by rejection: pairs whose unrestricted walk is short (fewer
+// than 5 events) or crosses no link are kept only occasionally, so that most cases exercise the walk.
+func TravInteresting(r *Rng, tc *TravCase) bool {
+	env, err := tc.Open()
+	if err != nil {
+		return false
+	}
+	if env.SelErr != nil {
+		return r.Chance(15)
+	}
+	evs, cls := env.Run(NoCtl(), false)
+	if cls != "ok" && len(evs) <= 250 {
+		return r.Chance(50)
+	}
+	loads := 0
+	for _, e := range evs {
+		if e.Load {
+			loads++
+		}
+	}
+	switch {
+	case len(evs) > 250:
+		return false
+	case len(evs) < 5:
+		return r.Chance(8)
+	case loads == 0:
+		return r.Chance(25)
+	}
+	return true
 }
